@@ -440,3 +440,75 @@ Qed.
 
 Theorem vmx_disks_sorted attr : StronglySorted sle (vmx_disks attr).
 Proof. apply sort_sorted. Qed.
+
+(* ====================================================================== *)
+(* VMX dictionaries: case-insensitive keys, comments / blank lines ignored,
+   the last assignment of a key wins                                        *)
+
+(* what one line contributes *)
+Definition assignment (raw : str) : option (str * str) :=
+  let line := strip raw in
+  if negb (nonempty line) || startswith [35] line then None
+  else let '(k, _, v) := partition 61 line in Some (lower (strip k), strip_chars [32; 34] v).
+
+Definition assignments (ls : list str) : list (str * str) :=
+  flat_map (fun l => match assignment l with Some kv => [kv] | None => [] end) ls.
+
+Definition dset_kv (d : dict str) (kv : str * str) : dict str := dset (fst kv) (snd kv) d.
+
+Lemma parse_line_assignment d raw :
+  parse_line d raw = match assignment raw with Some kv => dset_kv d kv | None => d end.
+Proof.
+  unfold parse_line, assignment. rewrite pin_comment, pin_kv_sep, pin_value_strip.
+  destruct (negb (nonempty (strip raw)) || startswith [35] (strip raw)); [reflexivity|].
+  destruct (partition 61 (strip raw)) as [[k f] v]. reflexivity.
+Qed.
+
+Lemma parse_lines_from ls d :
+  fold_left parse_line ls d = fold_left dset_kv (assignments ls) d.
+Proof.
+  revert d; induction ls as [|l ls IH]; intros d; simpl; [reflexivity|].
+  unfold assignments in *. rewrite fold_left_app, IH, parse_line_assignment.
+  destruct (assignment l); reflexivity.
+Qed.
+
+Lemma fold_dset_last kvs d k :
+  dget k (fold_left dset_kv kvs d) =
+  match last_assoc k kvs with Some v => Some v | None => dget k d end.
+Proof.
+  revert d; induction kvs as [|[k' v] r IH]; intros d; simpl; [reflexivity|].
+  rewrite IH. destruct (last_assoc k r); [reflexivity|].
+  unfold dset_kv; simpl. destruct (str_eqb k k') eqn:E.
+  - apply str_eqb_eq in E. subst. apply dget_dset_same.
+  - apply str_eqb_neq in E. apply dget_dset_other. congruence.
+Qed.
+
+(* the last assignment of a (case-folded) key wins *)
+Theorem dict_last_wins ls k : dget k (parse_lines ls) = last_assoc k (assignments ls).
+Proof.
+  unfold parse_lines. rewrite parse_lines_from, fold_dset_last. destruct (last_assoc k (assignments ls)); reflexivity.
+Qed.
+
+Theorem dict_keys_unique ls : NoDup (map fst (parse_lines ls)).
+Proof.
+  unfold parse_lines. rewrite parse_lines_from.
+  assert (G : forall kvs d, NoDup (map fst d) -> NoDup (map fst (fold_left dset_kv kvs d))).
+  { induction kvs as [|kv r IH]; intros d H; simpl; [assumption|]. apply IH. now apply dset_nodup. }
+  apply G. constructor.
+Qed.
+
+(* blank lines and comment lines contribute nothing, wherever they stand *)
+Theorem dict_comment_blank_ignored ls1 l ls2 :
+  strip l = [] \/ startswith [35] (strip l) = true ->
+  parse_lines (ls1 ++ l :: ls2) = parse_lines (ls1 ++ ls2).
+Proof.
+  intros H. unfold parse_lines. rewrite !fold_left_app. simpl. f_equal.
+  rewrite parse_line_assignment. unfold assignment.
+  destruct H as [-> | ->]; [reflexivity|]. now rewrite orb_true_r.
+Qed.
+
+(* the text is cut at line feeds only *)
+Theorem parse_dictionary_lines ls :
+  ls <> [] -> Forall (fun l => ~ In 10 l) ls ->
+  parse_dictionary (join_on 10 ls) = parse_lines ls.
+Proof. intros H1 H2. unfold parse_dictionary. rewrite pin_line_sep. now rewrite split_join. Qed.
